@@ -70,6 +70,40 @@ Theorem C20_order_once : forall cb0 inb nc scr ups sy sched,
 Proof. exact order_once. Qed.
 Print Assumptions C20_order_once.
 
+(* the same over the FINE steps: pendingData's add / moveTo / clear each run inside r.Lock() … r.Unlock(), moveTo and
+   clear walk the elements of r.unread one step each under the lock; a thread that needs the mutex while another holds
+   it does not move (C20_excluded_while_held: in particular the event loop's add is excluded while a walk is in
+   progress).  The fine machine performs a schedule of the machine above (C20_fine_reach), so every theorem of this
+   file holds of every state it reaches; order/exactly-once is restated for it. *)
+Theorem C20_fine_reach : forall sched s0, exists sched', base (frun sched (finit s0)) = run sched' s0.
+Proof. exact fine_reach. Qed.
+Print Assumptions C20_fine_reach.
+
+Theorem C20_excluded_while_held : forall sched s0 w h i n c,
+  let f := frun sched (finit s0) in
+  plk f = Some (h, i, n, c) -> h <> w -> pend_op (base f) w <> None -> fstep f w = f.
+Proof. exact excluded_while_held. Qed.
+Print Assumptions C20_excluded_while_held.
+
+Theorem C20_order_once_fine : forall cb0 inb nc scr ups sy sched,
+  let s := base (frun sched (finit (init_sy cb0 inb nc scr ups sy))) in
+  arrived s = concat (map snd (chunks s)) ++ concat (pending s) /\
+  moved s = concat (map snd (filter fst (chunks s))) /\
+  (st s <> c_streamClosed -> arrived s = consumed s ++ recv s ++ concat (pending s)).
+Proof. exact order_once_fine. Qed.
+Print Assumptions C20_order_once_fine.
+
+(* why the walk must stay under the lock.  Variant (guarded against by the harness: the access trace of the real
+   moveTo must be lock, element reads, unlock): moveTo copies the slice header of r.unread and resets
+   r.unread = r.unread[:0] under the lock, then walks the copy AFTER unlocking.  Copy and r.unread share one backing
+   array.  Below: two messages m1 m2 are pending; before the walker reads slot 0 the event loop adds m3, before it
+   reads slot 1 it adds m4: the walker links [m3; m4] — m1 and m2 are never offered (and their slices leak) — and
+   r.unread = [m3; m4] is linked AGAIN by the next moveTo: offered twice, recycled twice. *)
+Example C20_unlocked_walk_loses_and_duplicates :
+  let '(linked, arr, len) := racy_walk 0 [1; 2] 0 0 2 [[3]; [4]] in
+  linked = [3; 4] /\ firstn len arr = [3; 4].
+Proof. vm_compute. split; reflexivity. Qed.
+
 (* once the state has left `opened` no further OnData begins, except the single one whose IsOpen()
    check had already passed (g_cb; at most one by C20_serial) *)
 Theorem C20_stop : forall cb0 inb nc scr ups sy sched sched',
@@ -115,7 +149,7 @@ Proof. exact view_stable. Qed.
 Print Assumptions C20_view_stable.
 
 Example C20_regress_recycle_under_OnData :
-  let s := run ([WClo 0; WClo 0] ++ repeat WEv 6 ++ repeat (WGor 0) 3 ++ [WClo 0; WClo 0] ++ repeat WEv 4)
+  let s := run ([WClo 0; WClo 0] ++ repeat WEv 7 ++ repeat (WGor 0) 3 ++ [WClo 0; WClo 0] ++ repeat WEv 5)
                (init true [EData [1; 2; 3]; EData [4]] 1 [(3%nat, 0%nat)] []) in
   cz g_run (gors s) = 1 /\ st s = c_streamClosed /\ epc s = EIdle /\ pending s = [] /\ recv s = [1; 2; 3] /\
   (* OnData then reads all it was offered; close() cleans up afterwards *)
@@ -127,7 +161,7 @@ Proof. vm_compute. repeat split. Qed.
    cleared the flag and before its re-check; OnData consumes 1, 0, 2, then everything; the run is quiescent,
    open, and satisfies the hypotheses of C20_quiescent *)
 Example C20_example_run :
-  let s := run (repeat WEv 6 ++ repeat (WGor 0) 3 ++ repeat WEv 4 ++ repeat (WGor 0) 12 ++ repeat WEv 3 ++ repeat (WGor 0) 40 ++ repeat WEv 6 ++ repeat (WGor 1) 12)
+  let s := run (repeat WEv 7 ++ repeat (WGor 0) 3 ++ repeat WEv 5 ++ repeat (WGor 0) 12 ++ repeat WEv 4 ++ repeat (WGor 0) 40 ++ repeat WEv 6 ++ repeat (WGor 1) 12)
                (init true [EData [1; 2]; EData [3]; EData [4; 5; 6]] 0 [(1%nat, 0%nat); (0%nat, 0%nat); (2%nat, 0%nat)] []) in
   cbset s = true /\ epc s = EIdle /\ st s = c_streamOpened /\ cstate s = 0 /\ pending s = [] /\ recv s = [] /\
   consumed s = [1; 2; 3; 4; 5; 6] /\ offers s <> [] /\ Forall (fun g => g = GExit) (gors s).
@@ -136,7 +170,7 @@ Proof. vm_compute. repeat split; try discriminate; repeat constructor. Qed.
 (* non-vacuity 2 (the former witness of the late-SetCallbacks stranding): the message arrives before
    SetCallbacks; SetCallbacks itself now starts the goroutine and the byte is consumed *)
 Example C20_late_example_run :
-  let s := run ([WEv; WEv; WEv] ++ repeat WSet 4 ++ repeat (WGor 0) 12) (init false [EData [7]] 0 [] []) in
+  let s := run ([WEv; WEv; WEv; WEv] ++ repeat WSet 4 ++ repeat (WGor 0) 12) (init false [EData [7]] 0 [] []) in
   cbset s = true /\ spc s = SDone /\ epc s = EIdle /\ st s = c_streamOpened /\ pending s = [] /\ recv s = [] /\
   consumed s = [7] /\ gors s = [GExit].
 Proof. vm_compute. repeat split. Qed.
@@ -145,7 +179,7 @@ Proof. vm_compute. repeat split. Qed.
    message into recvBuf), then installs callbacks; nothing more arrives.  SetCallbacks starts the goroutine, which
    offers the remaining [3;4;5;6] from recvBuf (pendingData is empty all along) *)
 Example C20_sync_head_then_callbacks :
-  let s := run ([WEv; WEv; WEv] ++ [WSync; WSync] ++ repeat WSet 4 ++ repeat (WGor 0) 12)
+  let s := run ([WEv; WEv; WEv; WEv] ++ [WSync; WSync] ++ repeat WSet 4 ++ repeat (WGor 0) 12)
                (init_sy false [EData [1; 2; 3; 4; 5; 6]] 0 [] [] [2%nat]) in
   cbset s = true /\ spc s = SDone /\ epc s = EIdle /\ st s = c_streamOpened /\ pending s = [] /\ recv s = [] /\
   offers s = [[3; 4; 5; 6]] /\ consumed s = [1; 2; 3; 4; 5; 6] /\ gors s = [GExit].
